@@ -365,11 +365,17 @@ func (w *World) removeEntities(filter Filter) int {
 		}
 
 		var j uint32
-		for j = 0; j < ln; j++ {
-			entity := arch.GetEntity(j)
-			if listen {
+		if listen {
+			// Notify for all entities of the archetype before any of them is removed:
+			// a listener that inspects the world (e.g. through a query) must not see
+			// entities that are already recycled but still stored in the archetype.
+			for j = 0; j < ln; j++ {
+				entity := arch.GetEntity(j)
 				w.listener.Notify(w, EntityEvent{Entity: entity, Removed: arch.Mask, RemovedIDs: oldIds, OldRelation: oldRel, OldTarget: arch.RelationTarget, EventTypes: bits})
 			}
+		}
+		for j = 0; j < ln; j++ {
+			entity := arch.GetEntity(j)
 			index := &w.entities[entity.id]
 			index.arch = nil
 
